@@ -14,7 +14,7 @@ import (
 func genInputCase(t *rapid.T) *Case {
 	doc := ir.Doc{
 		"n":    int64(rapid.IntRange(0, 9).Draw(t, "n")),
-		"tag":  rapid.SampledFrom([]string{"t", "x1", "Ab"}).Draw(t, "tag"),
+		"tag":  rapid.SampledFrom([]string{"t", "x1", "Ab", ""}).Draw(t, "tag"), // an empty string is a value like any other
 		"flag": rapid.Bool().Draw(t, "flag"),
 	}
 	if rapid.Bool().Draw(t, "has_m") {
@@ -26,11 +26,14 @@ func genInputCase(t *rapid.T) *Case {
 		doc["m"] = int64(rapid.IntRange(0, 5).Draw(t, "m2"))
 		doc["zero"] = int64(0)
 	}
+	if rapid.IntRange(0, 2).Draw(t, "has_opt") == 0 {
+		doc["opt"] = rapid.SampledFrom([]string{"o", ""}).Draw(t, "opt")
+	}
 	hasNested := rapid.Bool().Draw(t, "has_nested")
 	if hasNested {
 		n := map[string]any{"x": int64(rapid.IntRange(0, 9).Draw(t, "nx"))}
 		if rapid.Bool().Draw(t, "has_ny") {
-			n["y"] = "yy"
+			n["y"] = rapid.SampledFrom([]string{"yy", ""}).Draw(t, "ny") // explicitly empty is not absent: no default
 		}
 		doc["nested"] = n
 	}
@@ -52,6 +55,9 @@ func genInputCase(t *rapid.T) *Case {
 	}
 	intRefs := []*ir.Expr{ir.Ref("input", "n"), ir.Ref("input", "m"), ir.Ref("input", "zero")}
 	strRefs := []*ir.Expr{ir.Ref("input", "tag")}
+	if _, ok := doc["opt"]; ok {
+		strRefs = append(strRefs, ir.Ref("input", "opt"))
+	}
 	if hasNested {
 		intRefs = append(intRefs, ir.Ref("input", "nested", "x"))
 		strRefs = append(strRefs, ir.Ref("input", "nested", "y"))
@@ -91,7 +97,7 @@ func genInputCase(t *rapid.T) *Case {
 	// corrupt the document half of the time
 	corruption := "none"
 	if rapid.Bool().Draw(t, "corrupt") {
-		corruption = rapid.SampledFrom([]string{"missing-n", "missing-tag", "missing-flag", "n-not-a-number", "flag-not-bool", "unknown-key", "nested-without-x", "item-without-v", "items-not-a-list", "nested-unknown-key", "m-is-a-list"}).Draw(t, "corruption")
+		corruption = rapid.SampledFrom([]string{"missing-n", "missing-tag", "missing-flag", "n-not-a-number", "flag-not-bool", "unknown-key", "nested-without-x", "item-without-v", "items-not-a-list", "nested-unknown-key", "m-is-a-list", "tag-is-null", "m-is-null", "nested-y-is-null"}).Draw(t, "corruption")
 		switch corruption {
 		case "missing-n":
 			delete(doc, "n")
@@ -115,6 +121,12 @@ func genInputCase(t *rapid.T) *Case {
 			doc["nested"] = map[string]any{"x": int64(1), "z": int64(2)}
 		case "m-is-a-list":
 			doc["m"] = []any{int64(1)}
+		case "tag-is-null":
+			doc["tag"] = nil
+		case "m-is-null":
+			doc["m"] = nil
+		case "nested-y-is-null":
+			doc["nested"] = map[string]any{"x": int64(1), "y": nil}
 		}
 	}
 	c := &Case{Property: "C19", Profile: "input-" + corruption, Class: "S1", Program: p, Doc: doc}
